@@ -75,6 +75,7 @@ def run(tier, v):
                 ok = True
             if e.get("e") == "fs" and e.get("allsame") and ok:
                 e["allsame"] = False
+                e["claimsame"] = False
                 break
         return ev
     cov["selftest_flip_rejected"] = vlib.selftest_reject("TransferObs", "TransferObs_c02.cfg", files[0], flip)
